@@ -548,13 +548,18 @@ Proof.
   { destruct (T.unget s1 t) as [s2|e|e] eqn:U; cbn [bind Le]; auto. eapply get_unget_mz; eauto. }
   destruct (negb (T.is_identifier t)); [exact Logic.I|]. cbv zeta.
   destruct (RdTextM.split_once 61 (T.tvalue t)) as [[key rest]|].
-  - destruct (T.is_nil key); [exact Logic.I|].
-    destruct (T.is_nil rest).
-    + destruct (T.get s1 true false) as [[q s2]|e|e] eqn:G2; cbn [bind fst snd]; try exact Logic.I.
+  - (* the two tests (empty key, empty rest) in either order *)
+    assert (Q : Le st (do qs <- T.get s1 true false;
+                       if negb (T.is_quoted (fst qs)) then Internal RdTextM.iValueError
+                       else do ps <- RdTextM.svcb_define params key (Some (T.tvalue (fst qs)));
+                            RdTextM.svcb_params_loop f (snd qs) ps)).
+    { destruct (T.get s1 true false) as [[q s2]|e|e] eqn:G2; cbn [bind fst snd]; try exact Logic.I.
       apply get_mz in G2 as (_ & A2 & _).
       destruct (negb (T.is_quoted q)); [exact Logic.I|].
-      apply le_pure. intros ps. eapply le_weaken; [apply IH|lia].
-    + apply le_pure. intros ps. eapply le_weaken; [apply IH|lia].
+      apply le_pure. intros ps. eapply le_weaken; [apply IH|lia]. }
+    assert (R : Le st (do ps <- RdTextM.svcb_define params key (Some rest); RdTextM.svcb_params_loop f s1 ps)).
+    { apply le_pure. intros ps. eapply le_weaken; [apply IH|lia]. }
+    destruct (T.is_nil key); destruct (T.is_nil rest); first [exact Logic.I | exact Q | exact R].
   - apply le_pure. intros ps. eapply le_weaken; [apply IH|lia].
 Qed.
 
@@ -733,13 +738,22 @@ Proof.
   destruct (T.is_eol_or_eof t) eqn:Ee; [reflexivity|]. specialize (C (eof_is_eol t Ee)).
   destruct (negb (T.is_identifier t)); [reflexivity|]. cbv zeta.
   destruct (RdTextM.split_once 61 (T.tvalue t)) as [[key rest]|].
-  - destruct (T.is_nil key); [reflexivity|].
-    destruct (T.is_nil rest).
-    + destruct (T.get s1 true false) as [[q s2]|e|e] eqn:G2; cbn [bind fst snd]; try reflexivity.
+  - assert (Q : (do qs <- T.get s1 true false;
+                 if negb (T.is_quoted (fst qs)) then Internal RdTextM.iValueError
+                 else do ps' <- RdTextM.svcb_define ps key (Some (T.tvalue (fst qs)));
+                      RdTextM.svcb_params_loop f1 (snd qs) ps')
+                = (do qs <- T.get s1 true false;
+                   if negb (T.is_quoted (fst qs)) then Internal RdTextM.iValueError
+                   else do ps' <- RdTextM.svcb_define ps key (Some (T.tvalue (fst qs)));
+                        RdTextM.svcb_params_loop f2 (snd qs) ps')).
+    { destruct (T.get s1 true false) as [[q s2]|e|e] eqn:G2; cbn [bind fst snd]; try reflexivity.
       apply get_mz in G2 as (_ & A2 & _).
       destruct (negb (T.is_quoted q)); [reflexivity|].
-      destruct (RdTextM.svcb_define ps key (Some (T.tvalue q))); cbn [bind]; try reflexivity. apply IH; lia.
-    + destruct (RdTextM.svcb_define ps key (Some rest)); cbn [bind]; try reflexivity. apply IH; lia.
+      destruct (RdTextM.svcb_define ps key (Some (T.tvalue q))); cbn [bind]; try reflexivity. apply IH; lia. }
+    assert (R : (do ps' <- RdTextM.svcb_define ps key (Some rest); RdTextM.svcb_params_loop f1 s1 ps')
+                = (do ps' <- RdTextM.svcb_define ps key (Some rest); RdTextM.svcb_params_loop f2 s1 ps')).
+    { destruct (RdTextM.svcb_define ps key (Some rest)); cbn [bind]; try reflexivity. apply IH; lia. }
+    destruct (T.is_nil key); destruct (T.is_nil rest); first [reflexivity | exact Q | exact R].
   - destruct (RdTextM.svcb_define ps (T.tvalue t) None); cbn [bind]; try reflexivity. apply IH; lia.
 Qed.
 
